@@ -25,8 +25,9 @@ def sample(cases, n, seed):
 
 def pool_post(prefix, cap_quick, cap_thorough):
     def post(cases, tier, seed):
-        grid = [c for c in cases if str(c.get("case", "")).startswith("G-")]
-        pool = [c for c in cases if not str(c.get("case", "")).startswith("G-")]
+        is_grid = lambda c: str(c.get("case", "")).startswith("G-") or "graph" in c
+        grid = [c for c in cases if is_grid(c)]
+        pool = [c for c in cases if not is_grid(c)]
         pool = sample(pool, cap_quick if tier == "quick" else cap_thorough, seed)
         out = []
         for i, c in enumerate(grid + pool):
@@ -212,8 +213,11 @@ PROPS = {
                      "re-parsing on the printed text with JSX disabled"],
     ),
     "C08": dict(
-        mc=[dict(module="MC_C07"), dict(module="MC_C17"), dict(module="MC_C16"), dict(module="MC_C18"), dict(module="MC_C20", tiers=("thorough",))] + POOL, post=pool_post("C08", 4000, 60000), judge="Judge_C08", want=["det"], node=False,
-        rule="adversarial modules (every directive name x every JSX attribute-value kind on element and component, deep nesting, "
+        mc=[dict(module="MC_C08T", heap="10g"), dict(module="MC_C07"), dict(module="MC_C17"), dict(module="MC_C16"), dict(module="MC_C18"), dict(module="MC_C20", tiers=("thorough",))] + POOL, post=pool_post("C08", 4000, 60000), judge="Judge_C08", want=["det"], node=False,
+        rule="TLC model-checks TypeResolve.tla (the type-resolution stack machine with its depth bound) over every declaration graph "
+             "on three names (2 197 graphs: literal / alias / intersection bodies) — liveness `Termination`, safety `ReportsCycles`, "
+             "`DepthBounded`, `NoOverflow` — and every graph is replayed on the real resolveType (cycle reported iff reachable; the "
+             "real lookups are compared with the model's). Plus adversarial modules (every directive name x every JSX attribute-value kind on element and component, deep nesting, "
              "self- and mutually-referential aliases and interfaces through alias / extends / intersection / utility / indexed "
              "access / emits, empty runtime types, odd defineComponent call shapes, the unusual-forms grid and the type-expression "
              "pools of C16-C18) under the option sets, plus a sample of the pooled modules; each is run twice in one "
